@@ -9,7 +9,7 @@ FUNCTIONS = ["kmeans.get_centroids_distance (NumPy and Dask branch)", "kmeans.ge
              "kmeans.accumulate_indices_means_vars", "kmeans.reduce_indices_means_vars", "kmeans.KMeansMachine.get_variances_and_weights_for_each_cluster",
              "gmm.GMMMachine.initialize_gaussians", "gmm.GMMMachine.fit (max_fitting_steps=0)"]
 STUBS = ["cdist sqeuclidean = sum_d (a_d-b_d)^2", "k_init with array init returns the array", "Dask array/executor model"]
-ASSUMPTIONS = ["ties resolved as numpy.argmin does (first index); the claim only requires *a* nearest centroid", "every cluster non-empty for the variance/weight clauses",
+ASSUMPTIONS = ["ties resolved as numpy.argmin does (first index); the claim only requires *a* nearest centroid", "the variance clause is claimed for non-empty clusters (the weight clause for all, empty clusters weigh 0); GMM initialisation: every cluster non-empty",
                "real arithmetic: an algebraically equal |x|^2-2xm+|m|^2 rewrite is indistinguishable here (cancellation at large offsets is a float-only effect, outside the claim)"]
 EXHAUSTIVE = ["all argmin paths", "all row chunkings of the Dask input", "single sample and batch"]
 OUTSIDE = ["K,D,N beyond those listed", "rounding / cancellation (probed concretely on the real code with offsets 1e3..1e8, as witness search only)"]
@@ -72,7 +72,8 @@ def sc_varw(B, K, D, N, chunks=None, via_gmm=False, floor="scalar"):
     C0 = B.arr("c", (K, D))
     lab = _labels(B, X, C0, K, D, N)
     members = [[i for i in range(N) if lab[i] == k] for k in range(K)]
-    if any(len(mm) == 0 for mm in members):
+    empty = [k for k in range(K) if not members[k]]
+    if empty and via_gmm:
         if B.sym:
             raise PathAbort("empty cluster: C13")
         raise AssumptionFailed()
@@ -85,6 +86,9 @@ def sc_varw(B, K, D, N, chunks=None, via_gmm=False, floor="scalar"):
     for k in range(K):
         row = []
         for d in range(D):
+            if k in empty:
+                row.append(None)  # no samples: the variance clause does not apply (0/0 is C13's subject)
+                continue
             mu = total([X[i][d] for i in members[k]]) / len(members[k])
             row.append(total([(X[i][d] - mu) * (X[i][d] - mu) for i in members[k]]) / len(members[k]))
         want_v.append(row)
@@ -94,8 +98,10 @@ def sc_varw(B, K, D, N, chunks=None, via_gmm=False, floor="scalar"):
         v, w = m.get_variances_and_weights_for_each_cluster(data)
         o.equal("weights-are-fractions", w, want_w)
         o.equal("weights-sum-to-one", total([w[k] for k in range(K)]), 1)
-        o.equal("variances-biased", v, want_v)
         for k in range(K):
+            if k in empty:
+                continue
+            o.equal("variances-biased-%d" % k, v[k], want_v[k])
             for d in range(D):
                 o.claim("variance-nonneg-%d%d" % (k, d), v[k][d] >= 0 if B.sym else float(v[k][d]) >= -1e-12)
     else:
@@ -141,6 +147,37 @@ def sc_big(B, K, N):
     return o
 
 
+def sc_dtypes(B, cdtype, xdtype, chunks=None):
+    """real code only: centroids / data given in other dtypes (integer centroids with fractional
+    data, float32): labels, weights and variances are those of the same numbers in float64"""
+    import numpy as np
+
+    km = B.mod("kmeans")
+    cents = np.array([[0, 0], [10, 4], [-6, 8]])
+    rs = np.random.RandomState(11)
+    lab = np.array([0, 1, 2, 1, 0, 2, 2, 1, 1])
+    X = (cents[lab] + rs.uniform(-1.5, 1.5, size=(9, 2))).astype(xdtype)
+    X64 = X.astype(float)
+    m = km.KMeansMachine(3)
+    m.centroids_ = cents.astype(cdtype)
+    data = X if chunks is None else B.darr(X, (chunks, (2,)))
+    o = Outcome()
+    o.equal("labels", m.predict(X), lab)
+    v, w = m.get_variances_and_weights_for_each_cluster(data)
+    o.equal("weights", w, np.bincount(lab, minlength=3) / 9)
+    o.equal("variances", v, np.array([X64[lab == k].var(axis=0) for k in range(3)]))
+    g = B.mod("gmm").GMMMachine(3, k_means_trainer=km.KMeansMachine(3, init_method=cents.astype(cdtype), max_iter=0), max_fitting_steps=0)
+    g.fit(data)
+    o.equal("gmm-init-variances", g.variances, np.maximum(np.array([X64[lab == k].var(axis=0) for k in range(3)]), g.variance_thresholds))
+    o.equal("gmm-init-means", g.means, cents)
+    return o
+
+
+def job_dtypes(P):
+    plist = [dict(cdtype=c, xdtype=x, chunks=ch) for c in ("int64", "int32", "float32", "float64") for x in ("float64",) for ch in (None, (4, 5))]
+    P.probe_real("dtypes", sc_dtypes, plist, tries=1)
+
+
 def job_big(P):
     from symexec import loader
 
@@ -171,7 +208,7 @@ def job_gmm(P, K, D, N, chunks, floor):
 
 
 def jobs(tier):
-    out = [("offsets", "job_offsets", {}), ("big", "job_big", {})]
+    out = [("offsets", "job_offsets", {}), ("big", "job_big", {}), ("dtypes", "job_dtypes", {})]
     for (K, D, N) in SIZES[tier]:
         out.append(("assign@K%dD%dN%d" % (K, D, N), "job_assign", dict(K=K, D=D, N=N)))
         out.append(("varw@K%dD%dN%d" % (K, D, N), "job_varw", dict(K=K, D=D, N=N, chunks=None)))
